@@ -1053,6 +1053,12 @@ static inline int myth_yield_ex_body(int opt) {
 			       myth_yield_ex_1,
 			       (void*)env, (void*)th, (void*)next);
   }
+#ifdef MYTH_VERIF
+  else {
+    /* a yield that found nothing to switch to: callers that poll through yield busy-wait here */
+    MYTH_VERIF_SPIN(MYTH_VP_SCHED_IDLE, env);
+  }
+#endif
 #if MYTH_YIELD_DEBUG
   myth_dprintf("myth_yield:thread %p continues execution\n",th);
 #endif
